@@ -26,8 +26,29 @@ def check_C05(tier, seed):
                         random_histories=16 if tier == "quick" else 200)
 
 
+def _colliding_pids(n, algo="sha256"):
+    """Pid strings whose hashes start with the same hex digit (same parent directory when the
+    store is sharded with depth 1, width 1)."""
+    import hashlib
+    found, k = [], 0
+    while len(found) < n:
+        s_ = "doi:10.5063/F1%04d" % k
+        k += 1
+        if hashlib.new(algo, s_.encode()).hexdigest()[0] == "a":
+            found.append(s_)
+    return found
+
+
 def check_C11(tier, seed):
-    return seqcheck.run("C11", tier, seed, "meta2" if tier == "quick" else "meta3")
+    cfg = "meta2" if tier == "quick" else "meta3"
+    v = seqcheck.run("C11", tier, seed, cfg, finish=False)
+    # second pass: depth 1 / width 1 and pids whose metadata directories are siblings under ONE
+    # parent, so that anything that walks or deletes "the directory above" hits the other pid
+    pids = seqcheck.CONFIGS[cfg]["inst"]["pids"]
+    coll = _colliding_pids(len(pids))
+    seqcheck.run("C11", tier, seed, "meta2", finish=False, verdict=v,
+                 inst_over={"depth": 1, "width": 1, "pid_strings": dict(zip(pids, coll))})
+    return v.finish()
 
 
 def check_C17(tier, seed):
@@ -344,7 +365,7 @@ def check_C14(tier, seed):
         "accepted": sum(1 for r_ in records if r_["accepted"]),
         "refused": sum(1 for r_ in records if not r_["accepted"]),
         "populated_store_attempts": sum(1 for r_ in records if r_["populated"]),
-        "exhaustive": tier == "thorough",
+        "exhaustive": False,
         "samples": [records[0], records[len(records) // 2]],
         "checker_cmd": "tlc MCConfig (all creation x reopening pairs of the decision table) ; tlc TraceConfig"})
     v.assumptions.append("depth 1-5, width 1-4, five DataONE algorithm names + 7 other spellings/unsupported names, 2 namespaces, int/str encodings, 12 malformations")
